@@ -35,6 +35,7 @@ func init() { runners["C01"] = runC01 }
 
 type c01Op struct {
 	Kind string
+	K0   int // position in the history as generated: the poison seed of the operation (kept by shrinking)
 	E, N int
 	Src  string
 	Vars map[string]interface{}
@@ -58,6 +59,12 @@ func (l *c01Loader) Load(name string) (string, error) {
 }
 func (l *c01Loader) Exists(name string) bool { _, ok := l.files[name]; return ok }
 
+type c01DenyAll struct{}
+
+func (c01DenyAll) IsFunctionAllowed(string) bool { return false }
+func (c01DenyAll) IsFilterAllowed(string) bool   { return false }
+func (c01DenyAll) IsTagAllowed(string) bool      { return false }
+
 func c01Name(n int) string { return "t" + strconv.Itoa(n) }
 
 func c01Decode(c Case) c01Hist {
@@ -71,9 +78,12 @@ func c01Decode(c Case) c01Hist {
 		s, _ := m["src"].(string)
 		h.Store = append(h.Store, c01Op{E: geti(m, "e"), N: geti(m, "n"), Src: unhex(s)})
 	}
-	for _, raw := range c.list("ops") {
+	for i, raw := range c.list("ops") {
 		m, _ := raw.(map[string]interface{})
-		o := c01Op{Raw: raw, E: geti(m, "e"), N: geti(m, "n")}
+		o := c01Op{Raw: raw, E: geti(m, "e"), N: geti(m, "n"), K0: i}
+		if _, ok := m["k0"]; ok {
+			o.K0 = geti(m, "k0")
+		}
 		o.Kind, _ = m["op"].(string)
 		o.Exp, _ = m["exp"].(string)
 		if s, ok := m["src"].(string); ok {
@@ -101,6 +111,11 @@ func c01Engines(h *c01Hist) []*twig.Engine {
 		e.AddFilter("verifboom", func(v interface{}, args ...interface{}) (interface{}, error) {
 			return nil, errors.New("verifboom: this filter always fails")
 		})
+		e.AddFilter("verifid", func(v interface{}, args ...interface{}) (interface{}, error) { return v, nil })
+		// a security policy that allows nothing is installed but the sandbox is off: it only bites in a context
+		// whose sandboxed flag is set, which no generated template does
+		e.EnableSandbox(c01DenyAll{})
+		e.DisableSandbox()
 		ld := &c01Loader{files: map[string]string{}}
 		for _, s := range h.Store {
 			if s.E == i {
@@ -304,9 +319,10 @@ type c01Failure struct {
 // c01Run executes the history in one mode and returns the first failure of the property's oracle (or of the
 // correspondence with the model, when withModel is set and the oracle holds everywhere).
 func c01Run(h *c01Hist, mode string, seed int64, refs map[int]string, withModel bool, evals *int) *c01Failure {
-	if mode != "plain" {
-		twig.VerifDrainPools() // bounds the junk; state left by earlier histories is what the plain mode runs on
-	}
+	// every run starts from empty pools: a failure then depends on the history alone and can be shrunk and replayed
+	// (what happened "earlier in the process" is the operations of the history: other templates, other engines,
+	// failing renders, parses, explicit poison operations)
+	twig.VerifDrainPools()
 	es := c01Engines(h)
 	type kept struct {
 		k        int
@@ -317,11 +333,11 @@ func c01Run(h *c01Hist, mode string, seed int64, refs map[int]string, withModel 
 	for k, o := range h.Ops {
 		switch mode {
 		case "poisoned":
-			twig.VerifPoisonPools(seed + int64(k))
+			twig.VerifPoisonPools(seed + int64(o.K0))
 		case "strict":
-			twig.VerifPoisonPoolsStrict(seed + int64(k))
+			twig.VerifPoisonPoolsStrict(seed + int64(o.K0))
 		}
-		got, out := c01Exec(es, o, seed+int64(k))
+		got, out := c01Exec(es, o, seed+int64(o.K0))
 		if o.Kind == "render" || o.Kind == "load" {
 			*evals++
 			ref, ok := refs[k]
@@ -419,7 +435,7 @@ func c01Shrink(h *c01Hist, mode string, seed int64) (*c01Hist, *c01Failure) {
 func c01CaseOf(h *c01Hist, stream string) Case {
 	var ops []interface{}
 	for _, o := range h.Ops {
-		m := map[string]interface{}{"op": o.Kind}
+		m := map[string]interface{}{"op": o.Kind, "k0": o.K0}
 		switch o.Kind {
 		case "register", "parse":
 			m["e"], m["src"], m["text"] = o.E, hx(o.Src), o.Src
@@ -503,6 +519,9 @@ func runC01(cases string, res *Result) {
 			res.sample(c, 6)
 		}
 		seed := int64(idx) * 1000
+		if v, ok := c["poison_seed"].(float64); ok {
+			seed = int64(v) // a replayed case carries the seed it failed with
+		}
 		refs := map[int]string{}
 		report := func(mode string, f *c01Failure) {
 			small, sf := h2(&h), f
@@ -513,6 +532,7 @@ func runC01(cases string, res *Result) {
 			}
 			cc := c01CaseOf(small, stream)
 			cc["mode"] = mode
+			cc["poison_seed"] = seed
 			cc["shrunk_from_len"] = len(h.Ops)
 			res.add(Finding{Kind: sf.Kind, Where: fmt.Sprintf("history %d, mode %s, op %d", idx, mode, sf.K), Case: cc,
 				Expected: sf.Expected, Observed: sf.Observed, Detail: sf.Detail})
